@@ -521,7 +521,7 @@ def r6(R, repo):
   for q, stack, hook in (('split_context', 'ref_index_stack', 'flatten_end'), ('merge_context', 'index_ref_stack', 'unflatten_end')):
     f = mod.func(q)
     tr = [n for n in astu.body_walk(f.node) if isinstance(n, ast.Try)]
-    ok = len(tr) == 1 and tr[0].finalbody and ('GRAPH_CONTEXT.%s.pop()' % stack) in astu.src(tr[0].finalbody[0])
+    ok = len(tr) == 1 and tr[0].finalbody and any(('GRAPH_CONTEXT.%s.pop()' % stack) in astu.src(s_) for s_ in tr[0].finalbody)
     pushes = [s for s in f.node.body if ('GRAPH_CONTEXT.%s.append(' % stack) in astu.src(s)]
     ok = ok and len(pushes) == 1 and f.node.body.index(pushes[0]) < f.node.body.index(tr[0]) and any(isinstance(x, ast.Yield) for s in tr[0].body for x in ast.walk(s))
     pops_any = [x for x in astu.func_calls(f) if astu.src(x.func) == 'GRAPH_CONTEXT.%s.pop' % stack]
